@@ -270,16 +270,24 @@ func isoWorker(run *ev.Run, spec isoSpec, w, n, startAfter int, dir string) {
 	debug.SetMaxStack(128 << 20)
 	go func() {
 		var last uint64
+		lastGrowth := time.Now()
 		var ms runtime.MemStats
 		for {
 			time.Sleep(400 * time.Millisecond)
 			runtime.ReadMemStats(&ms)
-			if ms.StackInuse > last+(8<<20) {
+			switch {
+			case ms.StackInuse > last+(8<<20):
 				last = ms.StackInuse
+				lastGrowth = time.Now()
 				now := time.Now()
 				_ = os.Chtimes(journal, now, now)
-			} else if ms.StackInuse+(8<<20) < last {
+			case ms.StackInuse+(8<<20) < last:
 				last = ms.StackInuse
+			case ms.StackInuse >= 32<<20 && time.Since(lastGrowth) < 90*time.Second:
+				// stack segments double (64 MB -> 128 MB): no growth is visible while the upper half fills, and on a
+				// loaded machine that takes longer than the silence watchdog allows
+				now := time.Now()
+				_ = os.Chtimes(journal, now, now)
 			}
 		}
 	}()
